@@ -1,4 +1,5 @@
 import AtreeProofs.Trans.MapElems
+import AtreeProofs.Trans.MapElemsOn
 import AtreeProofs.Map.Search
 /-
   The GENERATED `hkeyElements.Remove` (`AtreeModel/Gen/TransMapElems.lean`) against the model's
@@ -76,11 +77,13 @@ theorem mel_Remove_loop1 (e : HkeyElems α) (hok : mel_HOk e) (hk : Nat) (hhk : 
     · simp only [c, decide_false, if_false, Bool.false_eq_true]
       exact ⟨_, _, rfl⟩
 
-/-- `hkeyElements.Remove` = `HkeyElems.remove`: range pre-check, binary search, the element's `Remove`, then either the
+/-- (relativised environment `EnvAOn`; the guard `Pr` holds for the elements of the table) `hkeyElements.Remove` = `HkeyElems.remove`: range pre-check, binary search, the element's `Remove`, then either the
     element and its digest are deleted (size - digestSize - old element size) or the element is replaced (size + new - old); never panics -/
-theorem hkeyElements_Remove_eq_model (hE : EnvA o cfg k v env) (e : HkeyElems α) (hok : mel_HOk e) (level : Nat) (c : Ctx)
+theorem hkeyElements_Remove_eq_model_on {Pg Ps Pr : MElemF α → Nat → Ctx → Prop}
+    (hE : EnvAOn o cfg k v env Pg Ps Pr) (e : HkeyElems α) (hok : mel_HOk e) (level : Nat) (c : Ctx)
     (hl : level < 2^64) (hL : cfg.L < 2^64) (hd : k.dig level < 2^64)
-    (hsz : ∀ el ∈ e.elems, Gen.digestSize + el.size o ≤ e.size) :
+    (hsz : ∀ el ∈ e.elems, Gen.digestSize + el.size o ≤ e.size)
+    (hPr : ∀ (i : Nat) (el : MElemF α), e.elems[i]? = some el → Pr el level c) :
     hkeyElements_Remove env (mel_cH e) c (u64 level) (u64 (k.dig level)) (.key k) =
       mel_rRemove e c (HkeyElems.remove o cfg e level k c) := by
   unfold hkeyElements_Remove HkeyElems.remove
@@ -136,7 +139,7 @@ theorem hkeyElements_Remove_eq_model (hE : EnvA o cfg k v env) (e : HkeyElems α
             have hs := hsz _ hmem
             simp only [hne, decide_false, if_false, Bool.false_eq_true, mel_goIdx_elems, hel, Option.map_some]
             generalize e.elems[x] = el at *
-            rw [hE.size, hE.remove _ c level _ hl]
+            rw [hE.size, hE.remove _ c level _ hl (hPr _ _ hel)]
             rcases hr : el.remove o cfg level k c with err | ⟨rk, rv, el', c'⟩
             · simp only [mel_rERemove, Option.isNone_some, Bool.not_false, if_true, bind, Except.bind]
               rfl
@@ -156,6 +159,15 @@ theorem hkeyElements_Remove_eq_model (hE : EnvA o cfg k v env) (e : HkeyElems α
                   msl_int_toNat]
                 have hle : el.size o ≤ e.size + el''.size o := by omega
                 simp only [mel_rRemove, mel_cH, mel_u32_add_sub _ _ _ hle, List.map_set]
+
+/-- `hkeyElements.Remove` = `HkeyElems.remove`: range pre-check, binary search, the element's `Remove`, then either the
+    element and its digest are deleted (size - digestSize - old element size) or the element is replaced (size + new - old); never panics -/
+theorem hkeyElements_Remove_eq_model (hE : EnvA o cfg k v env) (e : HkeyElems α) (hok : mel_HOk e) (level : Nat) (c : Ctx)
+    (hl : level < 2^64) (hL : cfg.L < 2^64) (hd : k.dig level < 2^64)
+    (hsz : ∀ el ∈ e.elems, Gen.digestSize + el.size o ≤ e.size) :
+    hkeyElements_Remove env (mel_cH e) c (u64 level) (u64 (k.dig level)) (.key k) =
+      mel_rRemove e c (HkeyElems.remove o cfg e level k c) := by
+  exact hkeyElements_Remove_eq_model_on o cfg k v env hE.toOn e hok level c hl hL hd hsz (fun _ _ _ => trivial)
 end
 
 /-! ### non-vacuity: an environment satisfying `EnvA` (for every `o`, `cfg`, `k`, `v`), and concrete runs -/
